@@ -47,6 +47,26 @@ LEVEL_NOTE = 'Trusted: CPython, the generator\'s own layout bookkeeping (vp.gens
 TECHNIQUE = 'runtime monitoring: operation history vs layout/list reference model with span arithmetic (deciding) + representation-invariant hooks K1-K6'
 
 
+HOWS = ['item', 'item', 'item', 'view', 'simple', 'raw']
+
+
+def do_set(live, key, value, how):
+    """The same assignment through the different public entry points."""
+    if how == 'simple' and '\n' in value:
+        how = 'raw'
+    if how == 'item':
+        live[key] = value
+    elif how == 'view':       # dict view that does not auto-resolve: takes the preserve_original_field_comment=True path
+        live.configured_view(auto_resolve_ambiguous_fields=False)[key] = value
+    elif how == 'simple':
+        live.set_field_to_simple_value(key, value)
+    else:
+        raw = value if value.startswith((' ', '\t')) else ' ' + value
+        if not raw.endswith('\n'):
+            raw += '\n'
+        live.set_field_from_raw_string(key, raw)
+
+
 def new_value(r, ids):
     k = r.random()
     if k < .5:
@@ -95,14 +115,14 @@ def cases(ctx):
             if k < .45:
                 n = r.choice(names[pi])
                 key = r.choice([n, n, n.upper(), n.lower(), n.swapcase()])
-                ops.append(['set', pi, key, new_value(r, ids)])
+                ops.append(['set', pi, key, new_value(r, ids), r.choice(HOWS)])
             elif k < .75:
                 cand = [n for n in rtdoc.NAMES + ['New-Field', 'zz'] if n.lower() not in [x.lower() for x in names[pi]]]
                 n = r.choice(cand)
                 if r.random() < .2:
                     n = n.lower()
                 names[pi].append(n)
-                ops.append(['set', pi, n, new_value(r, ids)])
+                ops.append(['set', pi, n, new_value(r, ids), r.choice(HOWS)])
             else:
                 if len(names[pi]) < 2:
                     continue
@@ -165,8 +185,10 @@ def run_case(ctx, case):
             value = op[3]
             is_add = idx is None
             ctx.count('op:add' if is_add else 'op:set')
+            how = op[4] if len(op) > 4 else 'item'
+            ctx.count('how:' + how)
             try:
-                live[key] = value
+                do_set(live, key, value, how)
             except Exception as e:
                 ctx.violation('set-raises/%s' % type(e).__name__, 'step %d %r on %r: %r' % (step, op, before, e))
                 return
